@@ -31,40 +31,69 @@ Proof.
   destruct (N.eqb n k) eqn:E; [apply N.eqb_eq in E; subst; tauto|]. apply IH; tauto.
 Qed.
 
+Lemma in_skipn_in : forall {A} n (l : list A) x, In x (skipn n l) -> In x l.
+Proof.
+  induction n as [|n IH]; intros l x H; simpl in H; [assumption|].
+  destruct l; [contradiction|]. right. apply IH. assumption.
+Qed.
+Lemma existsb_names_false : forall (ps : list (name * option val)) k, ~ In k (names ps) ->
+  existsb (fun p => N.eqb (fst p) k) ps = false.
+Proof.
+  intros ps k H. destruct (existsb (fun p => N.eqb (fst p) k) ps) eqn:E; [|reflexivity].
+  apply existsb_names in E. contradiction.
+Qed.
+Lemma is_kwparam_param : forall s k, is_kwparam s k = true -> is_param s k = true.
+Proof.
+  intros s k H. unfold is_kwparam, is_param, params in *. rewrite existsb_app in *.
+  apply orb_true_iff in H. apply orb_true_iff. destruct H as [H|H]; [left|right; assumption].
+  apply existsb_names in H. apply existsb_names.
+  unfold names in *. apply in_map_iff in H. destruct H as [p [E I]]. apply in_map_iff. exists p. split; [assumption|].
+  eapply in_skipn_in; eauto.
+Qed.
+Lemma is_kwparam_nonpos : forall s k, ~ In k (names (pos s)) -> is_kwparam s k = is_param s k.
+Proof.
+  intros s k H. unfold is_kwparam, is_param, params. rewrite !existsb_app.
+  assert (existsb (fun p : name * option val => N.eqb (fst p) k) (pos s) = false) as E1 by (apply existsb_names_false; assumption).
+  assert (existsb (fun p : name * option val => N.eqb (fst p) k) (skipn (posonly s) (pos s)) = false) as E2.
+  { apply existsb_names_false. intros I. apply H. unfold names in *. apply in_map_iff in I. destruct I as [p [E I]].
+    apply in_map_iff. exists p. split; [assumption|eapply in_skipn_in; eauto]. }
+  unfold name in *. rewrite E1, E2. reflexivity.
+Qed.
+
 (* keywords that cannot clash: each lands on its parameter or in **kwargs *)
 Lemma bind_kw_ok : forall s kws asg extra,
   NoDup (map fst kws) -> ksorted extra ->
-  (forall k, In k (map fst kws) -> if is_param s k then kmem k asg = false else has_kw s = true /\ kmem k extra = false) ->
+  (forall k, In k (map fst kws) -> if is_kwparam s k then kmem k asg = false else has_kw s = true /\ kmem k extra = false) ->
   exists asg' extra', bind_kw s kws asg extra = Ok (asg', extra') /\ ksorted extra' /\
-    (forall n, kget n asg' = if is_param s n then match kget n kws with Some v => Some v | None => kget n asg end else kget n asg) /\
-    (forall n, kget n extra' = if is_param s n then kget n extra else match kget n kws with Some v => Some v | None => kget n extra end).
+    (forall n, kget n asg' = if is_kwparam s n then match kget n kws with Some v => Some v | None => kget n asg end else kget n asg) /\
+    (forall n, kget n extra' = if is_kwparam s n then kget n extra else match kget n kws with Some v => Some v | None => kget n extra end).
 Proof.
   intros s; induction kws as [|[k v] r IH]; intros asg extra ND S H; simpl.
-  - exists asg, extra. split; [reflexivity|]. split; [assumption|]. split; intros n; destruct (is_param s n); reflexivity.
+  - exists asg, extra. split; [reflexivity|]. split; [assumption|]. split; intros n; destruct (is_kwparam s n); reflexivity.
   - inversion ND; subst. simpl in H. pose proof (H k (or_introl eq_refl)) as Hk.
     assert (forall k', In k' (map fst r) -> N.eqb k' k = false) as NE.
     { intros k' I. apply N.eqb_neq. intros ->. contradiction. }
-    destruct (is_param s k) eqn:P.
+    destruct (is_kwparam s k) eqn:P.
     + rewrite Hk.
       destruct (IH (kset k v asg) extra H3 S) as [asg' [extra' [B [S' [A E]]]]].
-      { intros k' I. pose proof (H k' (or_intror I)) as Hk'. destruct (is_param s k'); [|assumption].
+      { intros k' I. pose proof (H k' (or_intror I)) as Hk'. destruct (is_kwparam s k'); [|assumption].
         rewrite kmem_kset, (NE k' I), Hk'. reflexivity. }
       exists asg', extra'. split; [assumption|]. split; [assumption|]. split.
-      * intros n. rewrite A. destruct (is_param s n) eqn:Pn.
+      * intros n. rewrite A. destruct (is_kwparam s n) eqn:Pn.
         -- destruct (N.eqb n k) eqn:En.
            ++ apply N.eqb_eq in En; subst n. rewrite (kget_not_in r k H2). rewrite kget_kset_same. reflexivity.
            ++ destruct (kget n r); [reflexivity|]. rewrite kget_kset, En. reflexivity.
         -- rewrite kget_kset. destruct (N.eqb n k) eqn:En; [apply N.eqb_eq in En; subst; congruence|reflexivity].
-      * intros n. rewrite E. destruct (is_param s n) eqn:Pn; [reflexivity|].
+      * intros n. rewrite E. destruct (is_kwparam s n) eqn:Pn; [reflexivity|].
         destruct (N.eqb n k) eqn:En; [apply N.eqb_eq in En; subst; congruence|reflexivity].
     + destruct Hk as [HK Hk]. rewrite HK, Hk.
       destruct (IH asg (kset k v extra) H3 (ksorted_kset _ _ _ S)) as [asg' [extra' [B [S' [A E]]]]].
-      { intros k' I. pose proof (H k' (or_intror I)) as Hk'. destruct (is_param s k'); [assumption|].
+      { intros k' I. pose proof (H k' (or_intror I)) as Hk'. destruct (is_kwparam s k'); [assumption|].
         destruct Hk' as [? Hk']. split; [assumption|]. rewrite kmem_kset, (NE k' I), Hk'. reflexivity. }
       exists asg', extra'. split; [assumption|]. split; [assumption|]. split.
-      * intros n. rewrite A. destruct (is_param s n) eqn:Pn; [|reflexivity].
+      * intros n. rewrite A. destruct (is_kwparam s n) eqn:Pn; [|reflexivity].
         destruct (N.eqb n k) eqn:En; [apply N.eqb_eq in En; subst; congruence|reflexivity].
-      * intros n. rewrite E. destruct (is_param s n) eqn:Pn.
+      * intros n. rewrite E. destruct (is_kwparam s n) eqn:Pn.
         { rewrite kget_kset. destruct (N.eqb n k) eqn:En; [apply N.eqb_eq in En; subst; congruence|reflexivity]. }
         destruct (N.eqb n k) eqn:En.
         -- apply N.eqb_eq in En; subst n. rewrite (kget_not_in r k H2). rewrite kget_kset_same. reflexivity.
@@ -87,20 +116,23 @@ Qed.
 Lemma extras_get : forall s m n, kget n (extras s m) = if is_param s n then None else kget n m.
 Proof. intros. unfold extras. rewrite kget_kfilter. destruct (is_param s n); reflexivity. Qed.
 
-(* everything by keyword *)
-Lemma keyword_form : forall s m, wf_sig s -> args_fit s m [] ->
+(* everything by keyword (possible when no parameter is positional-only) *)
+Lemma is_kwparam_no_posonly : forall s k, posonly s = 0%nat -> is_kwparam s k = is_param s k.
+Proof. intros s k H. unfold is_kwparam, is_param, params. rewrite H. reflexivity. Qed.
+
+Lemma keyword_form : forall s m, wf_sig s -> posonly s = 0%nat -> args_fit s m [] ->
   py_bind s {| cpos := []; ckw := m |} = direct_bind s m [].
 Proof.
-  intros s m W F. unfold py_bind, direct_bind; simpl. rewrite zip_pos_nil. simpl.
+  intros s m W PO F. unfold py_bind, direct_bind; simpl. rewrite zip_pos_nil. simpl.
   destruct (bind_kw_ok s m [] [] (sorted_keys_nodup m (af_sorted _ _ _ F)) (ks_nil)) as [asg' [extra' [B [S' [A E]]]]].
-  { intros k I. destruct (is_param s k) eqn:P; [reflexivity|]. split; [|reflexivity].
+  { intros k I. rewrite (is_kwparam_no_posonly s k PO). destruct (is_param s k) eqn:P; [reflexivity|]. split; [|reflexivity].
     destruct (af_keys _ _ _ F k (kmem_in_keys m k I)) as [Q|Q]; [congruence|assumption]. }
   rewrite B.
   rewrite (fill_ext (params s) asg' m).
   - destruct (fill (params s) m); [|reflexivity]. f_equal. f_equal.
     apply kmap_ext; [assumption|apply ksorted_kfilter; apply F|].
-    intros n. rewrite E, extras_get. destruct (is_param s n); [reflexivity|]. destruct (kget n m); reflexivity.
-  - intros n d I. rewrite A.
+    intros n. rewrite E, extras_get, (is_kwparam_no_posonly s n PO). destruct (is_param s n); [reflexivity|]. destruct (kget n m); reflexivity.
+  - intros n d I. rewrite A, (is_kwparam_no_posonly s n PO).
     assert (is_param s n = true) as ->. { apply is_param_in. change n with (fst (n, d)). apply in_map; assumption. }
     destruct (kget n m); reflexivity.
 Qed.
@@ -196,6 +228,7 @@ Proof.
   { intros k I. pose proof (kmem_in_keys K k I) as MK. unfold kmem in MK. rewrite KR in MK.
     destruct (existsb (N.eqb k) (names (pos s))) eqn:X; [discriminate|].
     assert (~ In k (names (pos s))) as NI by (intros Q; apply EX in Q; congruence).
+    rewrite (is_kwparam_nonpos s k NI).
     destruct (is_param s k) eqn:P.
     - unfold kmem. rewrite bind_positional_other by assumption. reflexivity.
     - split; [|reflexivity]. destruct (af_keys _ _ _ F k) as [Q|Q]; [|congruence|assumption].
@@ -204,22 +237,25 @@ Proof.
   rewrite (fill_ext (params s) asg' m).
   - destruct (fill (params s) m); [|reflexivity]. f_equal. f_equal.
     apply kmap_ext; [assumption|apply ksorted_kfilter; apply F|].
-    intros n. rewrite E, extras_get. destruct (is_param s n) eqn:P; [reflexivity|].
-    rewrite KR. destruct (existsb (N.eqb n) (names (pos s))) eqn:X.
-    + apply EX in X. rewrite (pos_is_param s n X) in P. discriminate.
-    + destruct (kget n m); reflexivity.
+    intros n. rewrite E, extras_get, KR.
+    destruct (existsb (N.eqb n) (names (pos s))) eqn:X.
+    + apply EX in X. rewrite (pos_is_param s n X). destruct (is_kwparam s n); reflexivity.
+    + assert (~ In n (names (pos s))) as NI by (intros Q; apply EX in Q; congruence).
+      rewrite (is_kwparam_nonpos s n NI). destruct (is_param s n); [reflexivity|]. destruct (kget n m); reflexivity.
   - intros n d I. rewrite A.
-    assert (is_param s n = true) as ->. { apply is_param_in. change n with (fst (n, d)). apply in_map; assumption. }
     unfold params in I. apply in_app_or in I. destruct I as [I|I].
-    + (* a positional parameter *)
+    + (* a positional parameter (positional-only or not): its value came by position *)
       assert (In n (names (pos s))) as IN by (change n with (fst (n, d)); apply in_map; assumption).
       rewrite KR. rewrite (proj1 (EX n) IN).
       destruct (bind_positional_values _ _ _ NDP LV [] n d I) as [v [Rv Gv]]. simpl in Rv.
-      rewrite Gv. rewrite Rv. reflexivity.
+      rewrite Gv. rewrite Rv. destruct (is_kwparam s n); reflexivity.
     + (* a keyword-only parameter *)
       assert (~ In n (names (pos s))) as NI.
       { intros Q. pose proof (wf_nodup s W) as ND. rewrite names_params in ND.
         eapply nodup_app_disjoint; [exact ND|exact Q|]. change n with (fst (n, d)); apply in_map; assumption. }
+      rewrite (is_kwparam_nonpos s n NI).
+      assert (is_param s n = true) as ->.
+      { apply is_param_in. rewrite names_params. apply in_or_app. right. change n with (fst (n, d)). apply in_map; assumption. }
       rewrite KR. destruct (existsb (N.eqb n) (names (pos s))) eqn:X; [apply EX in X; contradiction|].
       rewrite bind_positional_other by assumption. simpl.
       destruct (kget n m); reflexivity.
@@ -297,4 +333,40 @@ Proof.
   assert (eff_ok s e2) as OK2 by (eapply supply_lates_ok; eauto).
   assert (eff_ok s e) as OK3 by (eapply supply_ok; eauto).
   apply effective_call_meaning; assumption.
+Qed.
+
+(* ---- positional-only parameters ----------------------------------------------------------------------------- *)
+Lemma bind_kw_rejects : forall s kws asg extra k,
+  In k (map fst kws) -> is_kwparam s k = false -> has_kw s = false -> bind_kw s kws asg extra = Err ETypeError.
+Proof.
+  intros s; induction kws as [|[k0 v] r IH]; intros asg extra k I NP NK; simpl in *; [contradiction|].
+  destruct I as [I|I].
+  - subst k0. rewrite NP, NK. reflexivity.
+  - destruct (is_kwparam s k0).
+    + destruct (kmem k0 asg); [reflexivity|]. eapply IH; eauto.
+    + rewrite NK. reflexivity.
+Qed.
+
+(* the language: a keyword that names a positional-only parameter is a TypeError (without **kwargs) *)
+Theorem positional_only_keyword_rejected : forall s c k,
+  is_param s k = true -> is_kwparam s k = false -> has_kw s = false -> In k (map fst (ckw c)) ->
+  py_bind s c = Err ETypeError.
+Proof.
+  intros s c k P NP NK I. unfold py_bind. destruct (zip_pos (pos s) (cpos c) []) as [asg over].
+  destruct (negb (is_nil over) && negb (has_va s)); [reflexivity|].
+  rewrite (bind_kw_rejects s (ckw c) asg [] k I NP NK). reflexivity.
+Qed.
+
+(* def f(a, /): the functor lets a be bound by name (every argument is a named symbolic field) and then
+   passes it by position - the direct call written with that keyword is a TypeError *)
+Definition posonly_sig : sig := {| pos := [(1, None)]; posonly := 1; varargs := None; kwonly := []; varkw := None |}.
+Theorem positional_only_bound_by_name : exists q s c b,
+  wf_sig s /\ functor_bind q s c false false [] {| cpos := []; ckw := [] |} None None = Ok b /\
+  spec_outcome s c [] {| cpos := []; ckw := [] |} false false = Ok b /\
+  py_bind s c = Err ETypeError.
+Proof.
+  exists {| q_noop_rebind := false |}, posonly_sig, {| cpos := []; ckw := [(1, VInt 5)] |},
+         {| bnamed := [(1, VInt 5)]; bvar := []; bkw := [] |}.
+  split; [|split; [|split]]; try (vm_compute; reflexivity).
+  constructor; [|intros a H; discriminate]. simpl. constructor; [intros H; exact H|constructor].
 Qed.
